@@ -122,6 +122,11 @@ class ObsMixin(object):
         super().change_customer_class_while_waiting()
         self._log("cc_wait", self.now, self.id_number, ind, before, ind.customer_class, was_live)
 
+    def accept(self, next_individual, *args, **kwargs):
+        was_blocked = bool(getattr(next_individual, "is_blocked", False))
+        self._log("accept", self.now, self.id_number, next_individual, was_blocked)     # logged in entry order (before the nested effects of the entry)
+        super().accept(next_individual, *args, **kwargs)
+
     def block_individual(self, individual, next_node, *args, **kwargs):
         pop = len(customers(next_node))
         super().block_individual(individual, next_node, *args, **kwargs)
